@@ -7,10 +7,8 @@ package client
 import (
 	"bytes"
 	"context"
-	"crypto/ecdsa"
 	"crypto/sha256"
 	"errors"
-	"io"
 	"net/http"
 
 	ct "github.com/google/certificate-transparency-go"
@@ -18,40 +16,6 @@ import (
 	"github.com/google/certificate-transparency-go/tls"
 	"github.com/google/certificate-transparency-go/x509"
 )
-
-// The server is a scripted RoundTripper (S1 seam at http.Client.Transport).
-type c12Server struct {
-	calls   int
-	respond func(req *http.Request) (*http.Response, error)
-}
-
-func (s *c12Server) RoundTrip(req *http.Request) (*http.Response, error) {
-	s.calls++
-	return s.respond(req)
-}
-
-func c12Response(req *http.Request, status int, body []byte) *http.Response {
-	return &http.Response{StatusCode: status, Status: "status", Body: io.NopCloser(bytes.NewReader(body)), Header: http.Header{}, Request: req}
-}
-
-func c12Client(srv *c12Server, withKey bool) (*LogClient, *ecdsa.PublicKey) {
-	c, err := New("http://log.example/", &http.Client{Transport: srv}, jsonclient.Options{})
-	vAssume(err == nil)
-	// The log's key: natively the real P-256 key of c12PubDER; symbolically an opaque object
-	// (the signature primitive is cut, so only the key's identity matters).
-	key := &ecdsa.PublicKey{}
-	if !vSymbolic() {
-		k, err := x509.ParsePKIXPublicKey(c12PubDER)
-		if err != nil {
-			panic(err)
-		}
-		key = k.(*ecdsa.PublicKey)
-	}
-	if withKey {
-		c.Verifier = &ct.SignatureVerifier{PubKey: key}
-	}
-	return c, key
-}
 
 const (
 	bGood = iota
@@ -175,9 +139,6 @@ func Harness_C12_addChain() {
 	keyHash := sha256.Sum256(c12PubDER)
 	vAssert(idLen == 32 && bytes.Equal(sct.LogID.KeyID[:], keyHash[:]), "SCT log ID is the hash of the log's public key")
 }
-
-// DER (SubjectPublicKeyInfo) of the log's P-256 key: trillian/testdata/ct-http-server.pubkey.pem
-var c12PubDER = []byte{0x30, 0x59, 0x30, 0x13, 0x06, 0x07, 0x2a, 0x86, 0x48, 0xce, 0x3d, 0x02, 0x01, 0x06, 0x08, 0x2a, 0x86, 0x48, 0xce, 0x3d, 0x03, 0x01, 0x07, 0x03, 0x42, 0x00, 0x04, 0x07, 0xf8, 0x51, 0xaf, 0xaa, 0x8c, 0x56, 0x83, 0x90, 0x31, 0xb7, 0x80, 0xe3, 0xd6, 0x1a, 0xf7, 0x2f, 0x36, 0x06, 0x71, 0xec, 0xdd, 0x3b, 0xbe, 0x7e, 0x36, 0x6f, 0x0d, 0x1c, 0x1c, 0x60, 0x0b, 0x7f, 0xf5, 0x9f, 0xff, 0xe5, 0x24, 0x49, 0x34, 0x56, 0xf2, 0x4b, 0x10, 0x5f, 0xbf, 0x08, 0x1f, 0xf9, 0x0e, 0xcf, 0x35, 0xb5, 0x8a, 0x8a, 0x8b, 0x30, 0x0a, 0x54, 0xb7, 0xbf, 0x1d, 0x4d, 0xb9}
 
 // c12Ctx is a context that reports cancellation after a number of Err/Done consultations.
 type c12Ctx struct {
